@@ -605,6 +605,10 @@ class Ledger:
                         j = df.strip(j[2])
                     if ty_.startswith("u") and j[0] == "path":
                         return True
+                    # a single int -> float conversion of an unsigned value
+                    srcs = [y[4] for y in (x0_,) if len(y) > 4]
+                    if j[0] == "path" and srcs and srcs[0].startswith("u"):
+                        return True
                 if x0_[0] == "bin" and x0_[1] in ("Mul", "MulWithOverflow"):
                     return factor_ok(x0_[2]) and factor_ok(x0_[3])
                 if x0_[0] == "call" and x0_[2] == "mul" and len(x0_[3]) == 2:
